@@ -16,6 +16,7 @@ CONSTANTS
   ACTS = {"base", "share", "upd2"}
   MAXBASE = 2
   MAXLEN = 6
+  BASESET = "small"
   LOOPN = {}
   LOOPEVERY = {}
   LOOPSTYLES = {}
